@@ -131,3 +131,60 @@ def obligations_validate(ctx):
                              + ("" if same else " (differs from the committed snapshot coqgen/Validate_Gen.v)")}
     finally:
         shutil.rmtree(d, ignore_errors=True)
+
+
+def obligations_lifecycle(ctx):
+    """Re-translate the counter / drift_state bookkeeping of StreamingDetector / BatchDetector / DriftDetector of the tree under
+    test (tools/py2coq_lifecycle.py) and re-check coqgen/Lifecycle_Gen_Proofs.v against the fresh translation: init / reset /
+    the increments of update are those of the generic machine coq/Lifecycle.v, the drift_state setter stores exactly "drift",
+    "warning", None.  unsupported / ill-typed -> ok None, broken proof -> ok False."""
+    repo = os.environ.get("VERIF_REPO", "/repo")
+    tool = os.path.join(coqrun.VERIF, "tools", "py2coq_lifecycle.py")
+    d = os.path.join(coqrun.BUILD, "lifecycle", f"gen.{os.getpid()}")
+    shutil.rmtree(d, ignore_errors=True)
+    os.makedirs(d)
+    try:
+        r = subprocess.run([sys.executable, tool, repo, os.path.join(d, "Lifecycle_Gen.v")],
+                           capture_output=True, text=True, timeout=120)
+        if r.returncode != 0:
+            yield {"name": "py2coq_lifecycle", "ok": None,
+                   "detail": "translation not applicable: " + (r.stderr.strip() or r.stdout.strip())[-300:]}
+            return
+        shutil.copy(os.path.join(coqrun.VERIF, "coqgen", "Lifecycle_Gen_Proofs.v"), d)
+        text = open(os.path.join(d, "Lifecycle_Gen_Proofs.v")).read()
+        hits = [l.strip() for l in text.splitlines()
+                if re.search(r"\b(Admitted|admit|Axiom|Parameter|Conjecture|Abort)\b|Unset Guard|bypass_check|native_compute", l)
+                and not l.strip().startswith("(*")]
+        if hits:
+            yield {"name": "Lifecycle_Gen_Proofs", "ok": False, "detail": f"forbidden constructs: {hits[:3]}"}
+            return
+        args = ["coqc", "-Q", coqrun.COQ, "MV", "-Q", ".", "MVG"]
+        r = subprocess.run(args + ["Lifecycle_Gen.v"], cwd=d, capture_output=True, text=True, timeout=300)
+        if r.returncode != 0:
+            yield {"name": "py2coq_lifecycle", "ok": None,
+                   "detail": "translation not applicable: the generated Gallina does not type-check: " + (r.stdout + r.stderr)[-300:]}
+            return
+        r = subprocess.run(args + ["Lifecycle_Gen_Proofs.v"], cwd=d, capture_output=True, text=True, timeout=600)
+        out = r.stdout + r.stderr
+        if r.returncode != 0:
+            gen = open(os.path.join(d, "Lifecycle_Gen.v")).read()
+            shown = " | ".join(l.strip() for l in gen.splitlines() if l.startswith("Definition ") and "_Detector" not in l and
+                               any(k in l for k in ("_init", "_update", "_reset", "_set_drift_state")))
+            yield {"name": "Lifecycle_Gen_Proofs (base-class bookkeeping of the current detector.py = the generic machine Lifecycle.v)",
+                   "ok": False,
+                   "detail": "the equivalence proof no longer checks against the re-translated source: " + out[-300:]
+                             + "; translated bookkeeping: " + shown[:900]}
+            return
+        names = re.findall(r"^Print Assumptions (\w+)\.", text, re.M)
+        closed = out.count("Closed under the global context")
+        if closed != len(names):
+            yield {"name": "Lifecycle_Gen_Proofs", "ok": False,
+                   "detail": f"{len(names) - closed} of {len(names)} theorems depend on axioms: " + out[-400:]}
+            return
+        same = open(os.path.join(d, "Lifecycle_Gen.v")).read() == open(os.path.join(coqrun.VERIF, "coqgen", "Lifecycle_Gen.v")).read()
+        for n in names:
+            yield {"name": "MVG.Lifecycle_Gen_Proofs." + n, "ok": True,
+                   "detail": f"closed under the global context; checked against the translation of menelaus/detector.py in {repo}"
+                             + ("" if same else " (differs from the committed snapshot coqgen/Lifecycle_Gen.v)")}
+    finally:
+        shutil.rmtree(d, ignore_errors=True)
